@@ -834,6 +834,12 @@ class _Classification(_Algorithm):
                 whittaker_weights = whittaker_weights[self._inverted_order]
 
         whittaker_weights = whittaker_weights.astype(float)
+        if np.count_nonzero(whittaker_weights) < whittaker_system.diff_order:
+            # the penalized system is singular without enough baseline points
+            raise ValueError(
+                'not enough baseline points were identified to fit the baseline; increase '
+                'num_std or decrease min_length'
+            )
         baseline = whittaker_system.solve(
             whittaker_system.add_diagonal(whittaker_weights), whittaker_weights * y,
             overwrite_b=True, overwrite_ab=True
